@@ -75,6 +75,55 @@ def run_impl(search, h: History, head, last, step, pred):
     return {'changes': ch, 'intervals': iv, 'single': sg, 'probes': probes}
 
 
+def run_impl2(search, h: History, head, last, step, pred, m, as_dict):
+    """values carry a drifting field that the caller's `equals` ignores (equals coarser than ==)"""
+    if as_dict:
+        get = lambda x: {'v': h.value(x), 'seen_at': x % m}            # noqa: E731
+        eq = lambda a, b: a['v'] == b['v']                               # noqa: E731
+        unpack = lambda d: (d['v'], d['seen_at'])                        # noqa: E731
+        predv = {'v': pred, 'seen_at': 0}
+    else:
+        get = lambda x: (h.value(x), x % m)                              # noqa: E731
+        eq = lambda a, b: a[0] == b[0]                                   # noqa: E731
+        unpack = lambda t: (t[0], t[1])                                  # noqa: E731
+        predv = (pred, 0)
+    ch = guard(lambda: [(l, unpack(v)) for l, v in search.find_state_changes(head, last, get, eq, step)])
+    sg = guard(lambda: (lambda r: (r[0], unpack(r[1])))(search.find_state_change(head, last, get, eq, predv)))
+    return {'changes': ch, 'single': sg}
+
+
+def cobs2(o):
+    bad = o['changes'][0] != 'ok' or o['single'][0] != 'ok'
+    trip = lambda l, v: f'({cZ(l)}, ({cZ(v[0])}, {cZ(v[1])}))'           # noqa: E731
+    ch = 'None' if o['changes'][0] != 'ok' or o['changes'][1] is None else copt(clist(trip(l, v) for l, v in o['changes'][1]))
+    sg = 'None' if o['single'][0] != 'ok' or o['single'][1] is None else copt(trip(*o['single'][1]))
+    if bad:
+        ch = '(Some [((-1)%Z, ((-1)%Z, (-1)%Z))])'
+    return f'{{| o2_changes := {ch}; o2_single := {sg} |}}'
+
+
+def spec_check2(h: History, head, last, step, pred, m, o):
+    """(B) with a coarse equals: the state changes are the levels where the compared field changes; the value reported is the whole value"""
+    if last > head or step < 1 or not no_return(h, last, head):
+        return None
+    want = [(l, (h.value(l), l % m)) for l in range(last + 1, head + 1) if h.value(l) != h.value(l - 1)]
+    st, got = o['changes']
+    if st != 'ok':
+        return f'find_state_changes raised {got}'
+    if got is None:
+        return 'find_state_changes did not terminate (RecursionError)'
+    if got != want:
+        return (f'with equals comparing only the first field, reported {got}; the changes w.r.t. equals are {want}'
+                + (f'; spurious {[x for x in got if x not in want]}' if any(x not in want for x in got) else '')
+                + (f'; missed {[x for x in want if x not in got]}' if any(x not in got for x in want) else ''))
+    if last < head and h.value(last) == pred and h.value(head) != pred:
+        first = next(l for l in range(last + 1, head + 1) if h.value(l) != pred)
+        st, sg = o['single']
+        if st != 'ok' or sg != (first, (h.value(first), first % m)):
+            return f'find_state_change (coarse equals) returned {sg}, the first level whose compared field differs from {pred} is {first}'
+    return None
+
+
 def ccase(head, last, step, h: History, pred):
     segs = clist(f'({cZ(s)}, {cZ(v)})' for s, v in h.segs)
     return (f'{{| c_head := {cZ(head)}; c_last := {cZ(last)}; c_step := {cZ(step)}; c_default := {cZ(h.default)}; '
@@ -170,7 +219,8 @@ def run(ctx: lib.Ctx) -> None:
     ctx.rule = ('random piecewise-constant histories (0..6 change points biased to last+1, head, adjacent levels, the middle; optional breakpoints '
                 'outside the range) over ranges of width 0..400, each searched with several sampling steps out of 1..120 incl. 1, width-1, width, '
                 'width+1, width/2 (thorough: every step 1..120); boundary families (single change at every offset of a small range x every step); '
-                'a second stream with returning values and degenerate ranges (head <= last) for the correspondence only. '
+                'a second stream with returning values and degenerate ranges (head <= last) for the correspondence only; histories whose values are dicts / tuples with a '
+                'drifting field (level % m) and an `equals` that compares only the relevant field (coarser than ==), oracle = changes w.r.t. equals. '
                 'non-trivial = the history changes inside (last, head]; distinct = distinct (range, step, history)')
     cases, meta = [], []
 
@@ -228,6 +278,43 @@ def run(ctx: lib.Ctx) -> None:
         head = last - ctx.rng.randint(0, 4)
         add(gen_history(ctx.rng, head - 3, last + 3, 'returning'), head, last, ctx.rng.randint(1, 5), ctx.rng.randint(0, 2), 'degenerate:head<=last')
 
+    # 4. `equals` coarser than ==: values are dicts / tuples with a drifting field the caller's equals ignores
+    cases2, meta2 = [], []
+    for _ in range(ctx.n(120, 600)):
+        width = ctx.rng.choice([1, 2, 3, 5, 10, 60, 61, 120, 200]) if ctx.rng.random() < 0.5 else ctx.rng.randint(1, 300)
+        last = ctx.rng.choice([0, 1, 7, 1000])
+        head = last + width
+        h = gen_history(ctx.rng, last, head, 'monotone')
+        for step in steps_for(ctx.rng, width, 4, False):
+            m = ctx.rng.choice([1, 2, 3, 7, 1000003])
+            as_dict = ctx.rng.random() < 0.5
+            pred = h.value(last) if ctx.rng.random() < 0.85 else ctx.rng.randint(0, 3)
+            o = run_impl2(search, h, head, last, step, pred, m, as_dict)
+            nch = len(true_changes(h, last, head))
+            ctx.case(('coarse', head, last, step, h.default, tuple(h.segs), pred, m), nontrivial=nch > 0, kind='coarse-equals:' + ('dict' if as_dict else 'tuple'),
+                     sample={'head': head, 'last': last, 'step': step, 'history': {'default': h.default, 'breakpoints': h.segs},
+                             'ignored_field': f'level % {m}', 'reported': o['changes'][1]})
+            cases2.append((f'({ccase(head, last, step, h, pred)}, {cZ(m)})', cobs2(o)))
+            meta2.append((h, head, last, step, pred, m, as_dict, o))
+    bad2 = ctx.coq_mismatches(f'search2{os.getpid()}', IMPORTS, 'run_case2', 'obs2_eqb', 'case * Z', 'observation2', cases2, shard=400)
+    fails2 = []
+    for idx, (h, head, last, step, pred, m, as_dict, o) in enumerate(meta2):
+        why = spec_check2(h, head, last, step, pred, m, o)
+        if why:
+            fails2.append((head - last, len(h.segs), step, idx, why))
+    fails2.sort()
+    for *_k, idx, why in fails2[:2]:
+        h, head, last, step, pred, m, as_dict, o = meta2[idx]
+        val = "{'v': v, 'seen_at': x % m}" if as_dict else '(v, x % m)'
+        cmp_ = "a['v'] == b['v']" if as_dict else 'a[0] == b[0]'
+        ctx.violation(f'history search violated: {why}',
+                      {'head': head, 'last': last, 'step': step, 'pred_value': pred, 'history': {'default': h.default, 'breakpoints': h.segs},
+                       'value_shape': val, 'm': m, 'equals': cmp_, 'reported': o['changes'][1], 'single_change_search': o['single'][1],
+                       'repro': (f"from pytezos.rpc.search import find_state_changes; bp={h.segs!r}; m={m}; "
+                                 f"hv=lambda x: ([{h.default}] + [v for s, v in bp if s <= x])[-1]; "
+                                 f"get=lambda x: (lambda v: {val})(hv(x)); "
+                                 f"print(list(find_state_changes({head}, {last}, get, lambda a, b: {cmp_}, {step})))")})
+
     bad = ctx.coq_mismatches(f'search{os.getpid()}', IMPORTS, 'run_case', 'obs_eqb', 'case', 'observation', cases, shard=400)
 
     fails = []
@@ -250,7 +337,15 @@ def run(ctx: lib.Ctx) -> None:
                        'repro': (f"from pytezos.rpc.search import find_state_changes; bp={h.segs!r}; "
                                  f"get=lambda x: ([{h.default}] + [v for s, v in bp if s <= x])[-1]; "
                                  f"print(list(find_state_changes({head}, {last}, get, lambda a, b: a == b, {step})))")})
-    if not fails and bad:
+    if not fails and not fails2 and (bad or bad2):
+        if not bad:
+            h, head, last, step, pred, m, as_dict, o = meta2[bad2[0]]
+            ctx.violation('implementation no longer corresponds to the model the theorems are about',
+                          {'correspondence': 'C29/find_state_changes, find_state_change with an `equals` coarser than == vs Client.Search.run_case2',
+                           'head': head, 'last': last, 'step': step, 'pred_value': pred, 'm': m, 'history': {'default': h.default, 'breakpoints': h.segs},
+                           'observed': o, 'model': ctx.coq_eval(IMPORTS, f'run_case2 ({ccase(head, last, step, h, pred)}, {cZ(m)})'),
+                           'disagreements': len(bad2)}, found=False)
+            return
         h, head, last, step, pred, o = meta[bad[0]]
         ctx.violation('implementation no longer corresponds to the model the theorems are about',
                       {'correspondence': 'C29/pytezos.rpc.search.{find_state_changes, find_state_change_intervals, find_state_change} vs Client.Search',
